@@ -89,9 +89,11 @@ fn('emmet.html_matcher.attributes:attribute_value', props=P,
    modifies=['scanner.pos', 'scanner.start'], allocates=True)
 
 define('attr_ok', ['a', 'lo', 'hi'],
-       'lo <= a.name_start and a.name_start <= a.name_end and a.name_end <= hi and '
+       # the name is non-empty and its range has its length; a value follows the name and the `=`
+       'lo <= a.name_start and a.name_start < a.name_end and a.name_end <= hi and '
+       'len(a.name) == a.name_end - a.name_start and '
        '(a.value is None or (a.value_start is not None and a.value_end is not None and '
-       ' lo <= a.value_start and a.value_start < a.value_end and a.value_end <= hi and '
+       ' a.name_end < a.value_start and a.value_start < a.value_end and a.value_end <= hi and '
        ' len(a.value) == a.value_end - a.value_start and '
        ' (len(a.value) >= 2 or not is_quote(a.value[0]))))')
 
